@@ -115,6 +115,8 @@ def handle (j : Json) : Except String Json := do
       match st.get (← Drv.nat? cj "s") with
       | some (.buffer b) => res := Json.mkObj [("read", toJson (Drv.hex b.bytes))]
       | _ => pure ()
+    if op == "hmap_read" then
+      if !(st.holds (← Drv.nat? cj "s") isHlist) then throw "the calls do not follow the caller protocol"
     for c in cs do
       if !pre st c then throw "the calls do not follow the caller protocol"
       st := step z.sz st c
